@@ -148,7 +148,10 @@ def mk_device(inp, shape, **over):
     from pulser.channels import DMM, Rydberg
     from pulser.devices import VirtualDevice
 
-    kw = dict(name="dev", dimensions=shape.get("dims", 3), rydberg_level=60, channel_objects=(Rydberg.Global(None, None),))
+    lim = shape.get("chan_limits")
+    chan = Rydberg.Global(None, None) if not lim else Rydberg.Global(
+        inp.real("chan_max_det", 0.5, 100) if lim[0] else None, inp.real("chan_max_amp", 0.5, 100) if lim[1] else None)
+    kw = dict(name="dev", dimensions=shape.get("dims", 3), rydberg_level=60, channel_objects=(chan,))
     if "dims" in over:
         kw["dimensions"] = over.pop("dims")
     kw.update(over)
@@ -397,16 +400,21 @@ def h_maxconn(shape):
             mind = inp.real("min_atom_distance", 0.5, 20)
             spacing = None
         dev = mk_device(inp, shape, dims=2, min_atom_distance=mind, max_atom_num=shape.get("maxn", 10))
+        if shape.get("maxr"):
+            object.__setattr__(dev, "max_radial_distance", inp.real("max_radial_distance", 1, 100))
         try:
             reg = Register.max_connectivity(n, dev, spacing=spacing)
         except (ValueError, NotImplementedError):
             ok_args = AND(spacing >= mind) if spacing is not None else True
             return [("k4:max_connectivity_refused_only_for_bad_spacing", NOT(ok_args))]
+        why = None
         try:
             dev.validate_register(reg)
             ok = True
         except Exception as e:  # noqa: BLE001
             ok = False
+            why = type(e).__name__
+        inp.publish("refused_with_RadiusError@k4:max_connectivity_register_is_accepted", why == "RadiusError")
         return [("k4:max_connectivity_register_is_accepted", ok)]
 
     return h
@@ -473,12 +481,18 @@ def kernels(tier):
          "min_layout_traps", "max_layout_traps", "max_layout_filling", "optimal_layout_filling"]
     for p in P:
         ks.append(("params", dict(sym=[p])))
+    # channels that limit only one of amplitude / detuning (or both): the device is constructible all the same
+    for lim in ((True, False), (False, True), (True, True)):
+        ks.append(("params", dict(sym=["max_atom_num"], chan_limits=list(lim))))
     for combo in (["min_layout_traps", "max_layout_traps"], ["max_layout_traps", "max_atom_num", "max_layout_filling"],
                   ["max_layout_filling", "optimal_layout_filling"], ["max_layout_traps", "max_atom_num"]):
         ks.append(("params", dict(sym=combo)))
     for n in (1, 2, 3, 4) if quick else (1, 2, 3, 4, 5, 7):
         for sp in (True, False):
             ks.append(("maxconn", dict(n=n, spacing=sp)))
+    # ... on a device that also limits the distance from the centre
+    for n in (2, 3):
+        ks.append(("maxconn", dict(n=n, spacing=True, maxr=True)))
     for n in (2, 3) if quick else (2, 3, 4, 5):
         for opt in (False, True):
             ks.append(("autolayout", dict(n=n, opt=opt)))
